@@ -159,6 +159,7 @@ PROPS = {
     "C22": dict(
         title="user extension hooks (constraint lifecycle, process_extension, per-branch user state)",
         props_module="PvModel.Props.C22",
+        props_extra=["PvModel.Props.C22Global"],
         rule="tree programs (1 in 4 with a plusz among the atoms) and FD programs, nested conde/fresh, with a probe goal after EVERY goal of every "
              "branch and a final probe after reify; the instrumented User type counts hook calls and extension bindings; oracle at every probe: "
              "with - take = stored; for pure tree programs: bindings reported to process_extension = bindings in the substitution, each reported "
@@ -166,7 +167,7 @@ PROPS = {
              "non-trivial = >2 probes executed; distinct = distinct case lines",
         trusted=SEARCH_TRUST + ["absolute hook counts depend on the hash order of the store (measured) and are not compared; their difference is"],
         assumptions=[],
-        open=["the global lifecycle invariant is proved for pure tree programs (C22_count_tree); for programs with FD / CLP(Z) constraints (re-entrant propagation loop) it is carried by the probes on the real engine"],
+        open=[],
     ),
     "C24": dict(
         title="library list relations (member, member1, append, rember, permute, distinct, cons, first, rest, empty)",
